@@ -3,8 +3,9 @@
 (* and channel capacities 1..2: the configuration is chosen in Init so that one TLC run covers the whole family.      *)
 EXTENDS DistMatrixConc, TLC
 CONSTANTS MaxPairs, MaxWorkers
-Init == \E np \in 1..MaxPairs, nw \in 1..MaxWorkers, cp \in {1, 2}, fd \in 0..MaxPairs, fs \in 0..(MaxPairs + 1) :
-          /\ fd <= np /\ fs <= np + 1 /\ (fd = 0 \/ fs = 0)
-          /\ InitWith([np |-> np, nw |-> nw, cap |-> cp, fd |-> fd, fs |-> fs])
+Init == \E np \in 1..MaxPairs, nw \in 1..MaxWorkers, cp \in {1, 2}, fs \in 0..(MaxPairs + 1) :
+          \E fd \in {<<>>} \cup {<<a>> : a \in 1..np} \cup {<<a, a + 1>> : a \in 1..np} \cup {<<1, 2, 3>>} :
+             /\ fs <= np + 1 /\ (fd = <<>> \/ fs = 0)
+             /\ InitWith([np |-> np, nw |-> nw, cap |-> cp, fd |-> fd, fs |-> fs])
 Spec == Init /\ [][Next]_vars /\ WF_vars(Next)
 =============================================================================
